@@ -1,6 +1,7 @@
 """C03 — crash recovery is atomic, prefix-consistent and repeatable."""
 GEN = True           # go/extract/c03.go: BlugeGen.C03 (recovery walk, nextSegmentID seed, persister/merger error branches)
                      # and the layers its theorems are stated over: BlugeGen.C02, BlugeGen.C12
+EXTRACT_DEPS = ("c02.go", "c12.go")   # generator files this property's generator calls (regenerates the layers its theorems import)
 STATELESS = False
 NO_SHRINK = True     # the trace of a case depends on goroutine scheduling: a shrunk script is a different run
 SEARCH_SCALE = 1      # a correspondence break is searched with one more run of the same size (the runs are long)
